@@ -172,6 +172,25 @@ def reset_covers(ctx):
             res.fail(ctx.finding('RESET-COVERS', f, f.node,
                                  f'Tolerancing.reset does not reset {what}',
                                  construct='missing loop: ' + what))
+    # pickups and solves are functions of the restored values: the
+    # compensator optimiser re-applies them on every evaluation, so they sit
+    # at the last trial's values until the optic is updated again
+    ups = [i for i, st in enumerate(f.node.body)
+           if isinstance(st, ast.Expr) and isinstance(st.value, ast.Call) and
+           unparse(st.value.func) in ('self.optic.update',)]
+    last_loop = max([i for i, st in enumerate(f.node.body)
+                     if isinstance(st, ast.For)] or [-1])
+    if ups and ups[-1] > last_loop:
+        res.ok('Tolerancing.reset re-applies pickups and solves '
+               '(optic.update()) after the variables are restored')
+    else:
+        res.fail(ctx.finding(
+            'RESET-COVERS', f, f.node,
+            'Tolerancing.reset restores perturbed and compensating variables '
+            'only: pickup targets and solved distances, which the '
+            'compensator optimiser moved with the perturbed lens, stay at '
+            'the values of the last trial (no optic.update())',
+            construct='reset without optic.update'))
     # Perturbation.reset -> Variable.reset ; Variable.reset -> update(initial)
     pr = P.func('Perturbation.reset')
     res.saw(pr)
@@ -478,5 +497,18 @@ def c14_update(ctx):
     from .C14 import bounds_units as _r
     return _r(ctx)
 
-RULES = [c14_update, trial_record, final_reset, reset_before_apply, reset_covers, one_sample,
+def c01_init_stores(ctx):
+    """shared with C01: constructors keep private, float-typed copies of the
+    coefficient containers they are given (no aliasing of caller lists or of
+    the shared default, no integer tables)"""
+    from .C01 import init_stores as _r
+    return _r(ctx)
+
+def c01_setters(ctx):
+    """shared with C01: setters change exactly their quantity and leave a
+    geometry that can be traced (reset of perturbations goes through them)"""
+    from .C01 import setter_writes as _r
+    return _r(ctx)
+
+RULES = [c01_setters, c01_init_stores, c14_update, trial_record, final_reset, reset_before_apply, reset_covers, one_sample,
          target_default]
